@@ -18,15 +18,23 @@ Befores == << <<>>, <<"'", "s", "'">>, <<"b">>, <<"/", "*", "c", "*", "/">> >>
 Afters  == << <<>>, <<"/", "b", "/">>, <<"/", "*", "c", "*", "/">>, <<"/", "/", "c">>, <<"'", "s", "'">>,
               <<"b">>, <<"*">>, <<"/">>, <<"/", "*">>, <<" ", "b">> >>
 
-VARIABLES body, na, bf, af
-vars == <<body, na, bf, af>>
-Chunk == Befores[bf] \o <<"/">> \o body \o <<"/">> \o Afters[af]
+\* second family: a block comment `/*` body `*/` whose body is built from stars, slashes, a letter, a blank
+\* (runs of stars before the closing slash, `*/` inside the body, ...), with a token glued after it
+CAtoms == << <<"*">>, <<"/">>, <<"c">>, <<" ">> >>
+
+VARIABLES fam, body, na, bf, af
+vars == <<fam, body, na, bf, af>>
+Chunk == IF fam = "re" THEN Befores[bf] \o <<"/">> \o body \o <<"/">> \o Afters[af]
+         ELSE <<"/", "*">> \o body \o <<"*", "/">> \o Afters[af]
 
 \* the body grows atom by atom; every state is a chunk
-Init == body = <<>> /\ na = 0 /\ bf \in 1..Len(Befores) /\ af \in 1..Len(Afters)
-Next == /\ na < MaxAtoms
-        /\ \E k \in 1..Len(Atoms) : body' = body \o Atoms[k]
-        /\ na' = na + 1 /\ UNCHANGED <<bf, af>>
+Init == /\ body = <<>> /\ na = 0 /\ af \in 1..Len(Afters)
+        /\ \/ fam = "re" /\ bf \in 1..Len(Befores)
+           \/ fam = "cm" /\ bf = 1
+Next == /\ na < (IF fam = "re" THEN MaxAtoms ELSE MaxAtoms + 1)
+        /\ \E k \in 1..Len(IF fam = "re" THEN Atoms ELSE CAtoms) :
+              body' = body \o (IF fam = "re" THEN Atoms ELSE CAtoms)[k]
+        /\ na' = na + 1 /\ UNCHANGED <<fam, bf, af>>
 Spec == Init /\ [][Next]_vars
 
 ----------------------------------------------------------------------------
@@ -37,14 +45,14 @@ OnlyEscapedSlashes(cs, a, e) == \A j \in (a + 1)..(e - 1) : cs[j] = "/" => cs[j 
 \* the backtracking matcher agrees with the regular expression /((\\/)|[^/])*/ read declaratively:
 \* a slash can close the literal iff every slash before it is escaped, and the (greedy) match
 \* takes the last slash that can
-ReRuleSound ==
+ReRuleSound == fam = "re" =>
   LET cs == <<"/">> \o body \o <<"/">> \o Afters[af]
       C  == {j \in 2..Len(cs) : cs[j] = "/" /\ OnlyEscapedSlashes(cs, 1, j)}
   IN C # {} /\ LitEnd(cs, 2, "/") = CHOOSE j \in C : \A k \in C : k <= j
 
 \* without a backslash in the body the literal ends at the first slash after the opening one
 FirstSlashCloses ==
-  (\A j \in 1..Len(body) : body[j] # "\\") =>
+  (fam = "re" /\ \A j \in 1..Len(body) : body[j] # "\\") =>
      LitEnd(<<"/">> \o body \o <<"/">> \o Afters[af], 2, "/") = Len(body) + 2
 
 \* C24 on chunks: the self-hosted grammar's lexing (under Dev) yields the same verdict
@@ -53,7 +61,16 @@ LexAgrees == Dev = {} \/ (InL(Host(Lex(Chunk, 1, {})), {}) <=> InL(Host(Lex(Chun
 \* the lexer only produces tokens of the alphabet (or <bad>)
 LexTotal == \A j \in 1..Len(Lex(Chunk, 1, {})) : Lex(Chunk, 1, {})[j] \in Alphabet \cup {"<bad>"}
 
-EmitChunk == PrintT("CHUNK|" \o ToJson([cs |-> Chunk, bf |-> bf, af |-> af, n |-> na]))
+\* a block comment ends at the first `*/` after its opening `/*` (lang.py: /\*(.|\n)*?\*/), whatever
+\* stars and slashes it contains: the lexer never yields <bad> for the comment itself, and what it
+\* yields is what follows that first `*/`
+CommentRule == fam = "cm" =>
+  LET e == CommentEnd(Chunk, 3) IN
+  /\ e # 0 /\ Chunk[e] = "/" /\ Chunk[e - 1] = "*"
+  /\ \A j \in 4..(e - 1) : ~(Chunk[j - 1] = "*" /\ Chunk[j] = "/")
+  /\ Lex(Chunk, 1, {}) = <<"/*c*/">> \o Lex(Chunk, e + 1, {})
+
+EmitChunk == PrintT("CHUNK|" \o ToJson([cs |-> Chunk, fam |-> fam, bf |-> bf, af |-> af, n |-> na]))
 NoDev  == {}
 EnvDev == IF IOEnv.VT_DEV = "" THEN {} ELSE {IOEnv.VT_DEV}
 =============================================================================
